@@ -288,8 +288,10 @@ class Run:
             'wall_s': round(wall, 2),
             'violations': len(reported),
         }
-        os.makedirs(os.path.join(VERIF, 'evidence'), exist_ok=True)
-        with open(os.path.join(VERIF, 'evidence', self.pid + '.json'), 'w') as f:
+        # runs against another checkout (VERIF_REPO: seeded changes) must not overwrite the evidence of /repo
+        evdir = os.path.join(VERIF, 'evidence') if not os.environ.get('VERIF_REPO') else os.environ.get('VERIF_EVIDENCE_DIR', '/tmp/verif_evidence_mut')
+        os.makedirs(evdir, exist_ok=True)
+        with open(os.path.join(evdir, self.pid + '.json'), 'w') as f:
             json.dump(ev, f, indent=1)
         print('%s %s: decided=%d counts=%s solver_s=%.1f wall_s=%.1f violations=%d known=%d errors=%d'
               % (self.pid, self.tier, decided, {k: v for k, v in sorted(counts.items())}, tot.solver_s, wall,
